@@ -23,6 +23,9 @@ from typing import Any, Callable
 import z3
 
 
+KEEP_PER_SIGNATURE = 3
+
+
 class PathAbort(BaseException):
     """Raised by assume(False): the path is outside the harness precondition."""
 
@@ -87,7 +90,8 @@ class ExploreResult:
     solver_s: float = 0.0
     wall_s: float = 0.0
     max_depth: int = 0
-    violations: list[dict[str, Any]] = field(default_factory=list)
+    violations: list[dict[str, Any]] = field(default_factory=list)  # at most KEEP_PER_SIGNATURE full records per signature
+    violation_counts: dict[str, int] = field(default_factory=dict)  # every violating path, by signature
     timeout_scenarios: list[Any] = field(default_factory=list)
     samples: list[Any] = field(default_factory=list)
     counters: dict[str, int] = field(default_factory=dict)
@@ -102,6 +106,8 @@ class ExploreResult:
         self.solver_s += o.solver_s
         self.max_depth = max(self.max_depth, o.max_depth)
         self.violations.extend(o.violations)
+        for k, v in o.violation_counts.items():
+            self.violation_counts[k] = self.violation_counts.get(k, 0) + v
         self.timeout_scenarios.extend(o.timeout_scenarios[:3])
         if len(self.samples) < 12:
             self.samples.extend(o.samples[: 12 - len(self.samples)])
@@ -489,14 +495,19 @@ class Engine:
                     # a path cut short while still replaying its prefix has decisions
                     # (and solver scopes) beyond the point reached: drop them first
                     self._truncate()
-                    res.violations.append(
-                        {
-                            "signature": v.signature,
-                            "detail": v.detail,
-                            "values": self.model_values(),
-                            "decisions": [(d.label, d.options[d.taken]) for d in self._stack],
-                        }
-                    )
+                    seen = res.violation_counts.get(v.signature, 0)
+                    res.violation_counts[v.signature] = seen + 1
+                    if seen < KEEP_PER_SIGNATURE:
+                        # full records (scenario, z3 model) only for the first few paths of a
+                        # signature: a change that breaks every path must not exhaust the memory
+                        res.violations.append(
+                            {
+                                "signature": v.signature,
+                                "detail": v.detail,
+                                "values": self.model_values(),
+                                "decisions": [(d.label, d.options[d.taken]) for d in self._stack],
+                            }
+                        )
                     stop = stop_on_violation
                 res.max_depth = max(res.max_depth, self._pos)
                 self._truncate()
